@@ -1,6 +1,11 @@
 """C29 - BoundedDict keeps its size and callback contract.
 
-Engine E1 (explicit-state BFS over the real object). One BFS seed per configuration (max_size, min_size).
+Engine E1 (explicit-state BFS over the real object). One BFS seed per configuration (max_size, min_size, n_init):
+the plain constructor, and the constructor with initialdata= holding n_init = 1 .. max_size-1 entries whose keys come
+from the same alphabet (the model starts with those entries at use count 1).  The canonical state does not record
+how the object was constructed: an initialdata object that is attribute-for-attribute the object built by inserting
+the same keys shares that state; one that differs in any attribute (a wrong size bookkeeping ...) is a state of its own
+and is explored to the full depth.
 
 Events: set a new key / set a held key (the value changes) / get held / get absent / `in` / del held / del absent /
 drop the last reference (destruction, CPython runs __del__ at once).  The deletion callback appends to a log owned by
@@ -36,21 +41,21 @@ PROP = "C29"
 LEVEL = "model_checking"
 ENGINE = "bfs"
 RULE = ("BFS over histories of set-new / set-held / get / in / del-held / del-absent / destroy on the real BoundedDict "
-        "with a logging delete callback, one seed per (max_size, min_size); a state is distinct by configuration, held "
+        "with a logging delete callback, one seed per (max_size, min_size, number of initialdata entries); a state is distinct by configuration, held "
         "keys (names abstracted) with values, use counters and the object's attribute fingerprint")
 LEVEL_TEXT = ("Explicit-state search of every history up to the depth bound, for every configuration max_size in 1..4 x "
-              "min_size in {default, 1, 2, max_size}, on the real BoundedDict with a reference model in lock step: "
+              "min_size in {default, 1, 2, max_size} x initialdata of 0..max_size-1 entries, on the real BoundedDict with a reference model in lock step: "
               "returned values, membership, size bound, which keys may leave and when, the most-used rule on every "
               "eviction, and the exact multiset of deletion callbacks of every single event including destruction.")
 LEVEL_NOTE = ("Trusted: the reference model below and CPython's immediate refcount destruction. Keys are interchangeable "
-              "strings; initialdata= is not exercised; min_size > max_size is excluded as a meaningless configuration; "
+              "strings; initialdata= is exercised with 0..max_size-1 entries (more would start above the bound); min_size > max_size is excluded as a meaningless configuration; "
               "`in` is not counted as a use by any accepted measure; iteration helpers inherited from MutableMapping "
               "(items/values/get/pop...) are not exercised.")
 TECHNIQUE = "explicit-state BFS over operation histories on the real BoundedDict against a dict + use-counter model"
 ASSUMPTIONS = ["behaviour does not depend on key identity beyond equality (key names abstracted in the canonical state)",
                "dropping the last reference runs __del__ immediately (CPython reference counting)"]
 
-KEYS = ["k1", "k2", "k3", "k4", "k5"]
+KEYS = ["k1", "k2", "k3", "k4", "k5", "k6", "k7", "k8"]
 DEPTH = {"quick": 9, "thorough": 12}
 
 
@@ -68,7 +73,18 @@ def _configs():
     return out
 
 
-SEEDS = _configs()
+def _seeds():
+    """(max_size, min_size, n_init): the plain constructor first (n_init = 0), then every configuration again with
+    initialdata= holding 1 .. max_size-1 entries (keys k1..kn of the same alphabet, so later events hit and miss them)."""
+    cfgs = _configs()
+    out = [(mx, mn, 0) for mx, mn in cfgs]
+    for mx, mn in cfgs:
+        for n in range(1, mx):
+            out.append((mx, mn, n))
+    return out
+
+
+SEEDS = _seeds()
 
 # admissible use-count measures: (scope, restart value of survivors, weight of sets)
 MEASURES = [("ins", 0, 1), ("ins", 0, 0),
@@ -114,25 +130,33 @@ class State(object):
     pass
 
 
-def cfgcls(cfg):
+def cfgcls(cfg, n_init=0):
     mx, mn = cfg
+    init = "" if not n_init else (",initialdata=1" if n_init == 1 else ",initialdata>=2")
     if mn is None:
-        return "min=default(max//3=%d)" % min(mx // 3, 1)
+        return "min=default(max//3=%d)%s" % (min(mx // 3, 1), init)
     if mn == mx:
-        return "min=max"
+        return "min=max" + init
     if mn == 1:
-        return "min=1<max"
-    return "1<min<max"
+        return "min=1<max" + init
+    return "1<min<max" + init
 
 
 def make(seed):
     from miasm.core.utils import BoundedDict
-    mx, mn = seed
+    mx, mn, n_init = seed
     st = State()
     st.cfg = (mx, mn)
+    st.n_init = n_init
     st.log = []
-    st.d = BoundedDict(mx, mn, delete_cb=st.log.append)
     st.model = {}          # key -> Ent, insertion order of the model (not significant)
+    if n_init:
+        init = dict((k, (k, 0)) for k in KEYS[:n_init])
+        st.d = BoundedDict(mx, mn, initialdata=init, delete_cb=st.log.append)
+        for k in KEYS[:n_init]:
+            st.model[k] = Ent((k, 0))       # an initial entry counts as stored once: use count 1
+    else:
+        st.d = BoundedDict(mx, mn, delete_cb=st.log.append)
     st.alive = True
     st.last = "init"
     st.result = "init"
@@ -222,8 +246,13 @@ def _resync(st):
 
 
 def _desc(st):
-    return "max_size=%r min_size=%r holding {%s}" % (
-        st.cfg[0], st.cfg[1], ", ".join("%s:uses(g=%d,s=%d)" % (k, e.g_ins, e.s_ins) for k, e in st.model.items()))
+    return "max_size=%r min_size=%r%s holding {%s}" % (
+        st.cfg[0], st.cfg[1], _initdesc(st.n_init),
+        ", ".join("%s:uses(g=%d,s=%d)" % (k, e.g_ins, e.s_ins) for k, e in st.model.items()))
+
+
+def _initdesc(n_init):
+    return " initialdata={%s}" % ",".join(KEYS[:n_init]) if n_init else ""
 
 
 class _After(object):
@@ -240,18 +269,20 @@ class _Ctx(object):
     def __init__(self, st, ev):
         self.ev = ev
         self.cfg = st.cfg
+        self.n_init = st.n_init
         self.ents = [(k, e.g_ins, e.s_ins) for k, e in st.model.items()]
 
     def __str__(self):
-        return "%r on max_size=%r min_size=%r holding {%s}" % (
-            self.ev, self.cfg[0], self.cfg[1], ", ".join("%s:uses(g=%d,s=%d)" % x for x in self.ents))
+        return "%r on max_size=%r min_size=%r%s holding {%s}" % (
+            self.ev, self.cfg[0], self.cfg[1], _initdesc(self.n_init),
+            ", ".join("%s:uses(g=%d,s=%d)" % x for x in self.ents))
 
 
 def apply(st, ev):
     probs = []
     kind = ev[0]
     mx, mn = st.cfg
-    cc = cfgcls(st.cfg)
+    cc = cfgcls(st.cfg, st.n_init)
     m = st.model
     n0 = len(st.log)
     ctx = _Ctx(st, ev)
@@ -408,7 +439,7 @@ def invariant(st):
     try:
         n = len(d)
         if n > mx:
-            probs.append(("len-exceeds-max_size@%s" % cfgcls(st.cfg), "%s: len = %d > max_size = %d (keys %r)" % (ctx, n, mx, _held(st))))
+            probs.append(("len-exceeds-max_size@%s" % cfgcls(st.cfg, st.n_init), "%s: len = %d > max_size = %d (keys %r)" % (ctx, n, mx, _held(st))))
         held = _held(st)
         if n != len(held) or len(set(held)) != len(held):
             probs.append(("probe:len-vs-keys:after:%s" % tag, "%s: len = %d but keys() = %r" % (ctx, n, held)))
@@ -474,9 +505,21 @@ def run(ctx):
     import sys
     depth = DEPTH[ctx.tier]
     cov = bfs.explore(ctx, sys.modules[__name__], max_depth=depth, seeds=SEEDS, chunk=32)
-    cov["bounds"] = {"depth": depth, "keys": KEYS, "configs(max_size,min_size)": [list(c) for c in SEEDS],
+    cov["bounds"] = {"depth": depth, "keys": KEYS, "configs(max_size,min_size,n_initialdata)": [list(c) for c in SEEDS],
                      "measures(scope,survivor_restart,weight_of_sets)": [list(x) for x in MEASURES]}
     cov["configurations"] = len(SEEDS)
+    cov["configurations_with_initialdata"] = sum(1 for c in SEEDS if c[2])
+    # how the constructor with initialdata relates to the plain one: a seed whose object is attribute-for-attribute the
+    # object obtained by inserting the same keys one by one shares that state (and its whole future) in the search
+    same = 0
+    for mx, mn, n in SEEDS:
+        if n:
+            a = make((mx, mn, n))
+            b = make((mx, mn, 0))
+            for k in KEYS[:n]:
+                apply(b, ("set", k))
+            same += canon(a) == canon(b)
+    cov["initialdata_seeds_identical_to_insertion_built_state"] = same
     return cov
 
 
